@@ -248,7 +248,7 @@ func genC12s(rng *rand.Rand, tier string, w *bufio.Writer) {
 			go func() { wg.Wait(); close(done) }()
 			select {
 			case <-done:
-			case <-time.After(20 * time.Second):
+			case <-time.After(HxScale(60 * time.Second)):
 				hung = true
 			}
 			if hung {
